@@ -37,6 +37,7 @@ type c08Key struct {
 	T      string `json:"t"`                // value type: s string, i int, b bool, l list, m nested map
 	Field  string `json:"field,omitempty"`  // Go field name when a struct Fill carries the key
 	Tag    string `json:"tag,omitempty"`    // json tag of that field ("" = untagged field)
+	Omit   bool   `json:"omit,omitempty"`   // the json tag carries ,omitempty (a zero value in the struct is still a value given through Fill)
 	NoExpr bool   `json:"noexpr,omitempty"` // no {{ path == c }} probe (a nested read of an undefined key is an evaluation error the statement does not speak about)
 }
 
@@ -109,7 +110,7 @@ func (p *c08) Rule() string {
 // ---------------------------------------------------------------- plan
 
 var c08Entries = []string{"load-write-render", "withfs-load-write-render", "write-load-render", "write-renderfile", "write-renderstring", "vue-render", "vue-fragment"}
-var c08Shapes = []string{"map", "struct-tag", "struct-name", "ptr-tag", "ptr-name", "struct-untagged"}
+var c08Shapes = []string{"map", "struct-tag", "struct-name", "ptr-tag", "ptr-name", "struct-untagged", "struct-omitempty", "ptr-omitempty"}
 var c08Types = []string{"s", "i", "b", "l", "m"}
 var c08Kinds = []string{"FF", "FA", "AF", "AA"} // kind of the earlier write, kind of the later write
 
@@ -194,6 +195,8 @@ func c08KeyFor(typ, shape string) c08Key {
 		return c08Key{N: up, T: typ, Field: up, Tag: lo}
 	case "struct-untagged":
 		return c08Key{N: "U" + typ, T: typ, Field: "U" + typ}
+	case "struct-omitempty", "ptr-omitempty":
+		return c08Key{N: lo, T: typ, Field: up, Tag: lo, Omit: true}
 	}
 	return c08Key{N: lo, T: typ, Field: up, Tag: lo}
 }
@@ -392,6 +395,8 @@ func c08GenRandom(ctx core.Ctx, i int) c08Case {
 				key.N = key.Field // addressed by field name
 			case 1:
 				key.N, key.Field, key.Tag = fmt.Sprintf("U%d", k), fmt.Sprintf("U%d", k), "" // untagged field
+			case 2, 3:
+				key.Omit = true
 			}
 		}
 		c.Keys = append(c.Keys, key)
@@ -612,6 +617,9 @@ func c08Data(keys []c08Key, shape string, v map[string]string) any {
 		f := reflect.StructField{Name: k.Field, Type: c08FieldTypes[k.T]}
 		if k.Tag != "" {
 			f.Tag = reflect.StructTag(`json:"` + k.Tag + `"`)
+			if k.Omit {
+				f.Tag = reflect.StructTag(`json:"` + k.Tag + `,omitempty"`)
+			}
 		}
 		fields = append(fields, f)
 		ks = append(ks, k)
